@@ -312,6 +312,11 @@ def _build(spec):
     return t
 
 
+def _globals(display):
+    """every module-level number of display.py (the row limit lives in one of them, whatever it is called)"""
+    return repr(sorted((k, v) for k, v in vars(display).items() if type(v) in (int, float, bool)))
+
+
 def execute(spec):
     import serif
     from serif import Table, set_repr_rows
@@ -331,8 +336,8 @@ def execute(spec):
     def state():
         if is_table:
             return {"names": [repr(n) for n in obj.column_names()], "cols": [_vec_state(I, c) for c in obj.cols()], "nrows": len(obj),
-                    "fp": str(_try(obj.fingerprint)), "override": obj._repr_rows, "global": display._REPR_ROWS_DEFAULT}
-        return dict(_vec_state(I, obj), **{"global": display._REPR_ROWS_DEFAULT, "len": len(obj)})
+                    "fp": str(_try(obj.fingerprint)), "override": getattr(obj, "_repr_rows", None), "global": _globals(display)}
+        return dict(_vec_state(I, obj), **{"global": _globals(display), "len": len(obj)})
 
     case = {"rows": spec["rows"], "override": spec.get("override"), "other_names": OTHER_NAMES, "unpinned": unpinned,
             "cols": [col_wire(c) for c in (obj.cols() if is_table else [obj])]}
